@@ -194,6 +194,22 @@ def scripted():
             ins = list(H.INPUTS[g])
             h += [_op("LoadStr", s, ins[(k + s) % len(ins)]), _op("LoadFile", s, ins[(2 * k + s) % len(ins)])]
     out.append(("three memoizing grammars", h))
+    # metamodels of *different* grammars created between loads: the grammars share textually
+    # identical regexes and literals in different roles (assignment rhs, suppressed match, separator,
+    # match-rule body, ignore_case on/off), so anything cached per regex / literal text across
+    # metamodels changes what an already existing metamodel loads
+    import itertools
+
+    def all_loads(slot, g):
+        return [_op(nm, slot, i) for i in H.INPUTS[g] for nm in ("LoadStr", "LoadFile")]
+
+    for k, (g1, g2, g3) in enumerate(itertools.permutations(list(H.GRAMMARS))):
+        for o2, o3 in ((("plain", "icase"), ("icase", "plain"))[k % 2],):
+            h = [_op("NewMM", 1, f"{g1}.plain")] + all_loads(1, g1)
+            h += [_op("NewMM", 2, f"{g2}.{o2}")] + all_loads(1, g1) + all_loads(2, g2)
+            h += [_op("NewMM", 3, f"{g3}.{o3}")] + all_loads(1, g1) + all_loads(2, g2) + all_loads(3, g3)
+            h += [_op("DropMM", 1, "-"), _op("NewMM", 1, f"{g1}.icase")] + all_loads(1, g1) + all_loads(3, g3)
+            out.append((f"grammars interleaved with loads {g1},{g2}.{o2},{g3}.{o3}", h))
     # the witnesses of the listed findings (reproduced in every run while the defects exist)
     out.append(("nested load with a global repository, repeated",
                 [_op("NewMM", 1, "ent.grepo"), _op("LoadFile", 1, "valid2"), _op("LoadFile", 1, "valid2"),
@@ -248,6 +264,13 @@ def execute(ex, ops):
     ex.reset_process_state()
     events, dumps = [], []
     for o in ops:
+        if o["name"] in ("LoadStr", "LoadFile", "DropMM") and o["slot"] not in ex.lives:
+            # the metamodel could not be built (that NewMM event already is not a step of the module)
+            ex.n += 1
+            events.append(dict(name=o["name"], slot=o["slot"], arg=o["arg"], inp=o.get("inp", "-"),
+                               res=dict(kind="other:NoMetamodel", dig="-", ident=0), state=ex.state()))
+            dumps.append({})
+            continue
         if o["name"] in ("LoadStr", "LoadFile"):
             live = ex.lives[o["slot"]]
             g = live.flags["grammar"]
@@ -378,8 +401,9 @@ def run(rep):
     quick = rep.tier == "quick"
     rng = random.Random(rep.seed)
     rep.rule = ("A case is one history (sequence of NewMM / DropMM / WriteFile / LoadStr / LoadFile calls over 3 slots, "
-                "15 configurations = 3 grammars x {plain, memoization, user classes, object processors, global "
-                "repository}, 5-6 inputs per grammar) executed in one interpreter; every call's result (digest of the "
+                "18 configurations = 3 grammars (sharing textually identical regexes and literals in different "
+                "roles) x {plain, memoization, user classes, object processors, global repository, ignore_case}, "
+                "5-6 inputs per grammar) executed in one interpreter; every call's result (digest of the "
                 "structural dump of the model or of the projected error, identity of the returned model) and the "
                 "projected shared state after it must be a behaviour of History.tla whose expected results are the "
                 "Fresh table. S->I: histories from `tlc -simulate`; I->S: those, the scripted interleavings and "
@@ -397,7 +421,9 @@ def run(rep):
         "targets as (file, containment path), positions, the number of __init__ calls of user-class objects; an "
         "error is projected to (class, message, line, col, filename, err_type)",
         "between histories the interpreter is brought back to the module's initial state by dropping the metamodels "
-        "and clearing textx.lang.textX_parsers",
+        "and clearing textx.lang.textX_parsers; state the harness does not know about survives that reset, so a "
+        "leak through such state may be reported at an early call of a later history (the earlier histories of the "
+        "run are then part of the witness)",
     ]
     findings = common.open_findings(PID)
     devs = {f["deviation"]: f["id"] for f in findings}
